@@ -15,7 +15,7 @@ use serde_json::{json, Value};
 
 const STREAM: u64 = 10;
 
-const CLASSES: [&str; 26] = [
+const CLASSES: [&str; 28] = [
     "honest",
     "kb-removed",
     "jwt-char",
@@ -42,6 +42,8 @@ const CLASSES: [&str; 26] = [
     "resigned-expired",
     "resigned-nbf-future",
     "resigned-exp-non-numeric",
+    "kb-is-a-disclosure",
+    "kb-is-a-forged-disclosure",
 ];
 
 pub fn run(ctx: &Ctx) -> Report {
@@ -141,7 +143,37 @@ fn one_case(ctx: &Ctx, case: u64, l: &mut Local) {
     };
     let honest = match Parts::parse(fmt0, &pres) {
         Ok(p) => p,
-        Err(_) => return,
+        Err(_) => {
+            // the library's own output does not follow the strict grammar (C06 reports that); still
+            // compare it, as it is, with its re-expression in the other format
+            let lenient: Option<Parts> = if fmt0 == Fmt::Json {
+                serde_json::from_str::<Value>(&pres).ok().and_then(|v| {
+                    let g = |k: &str| v.get(k).and_then(Value::as_str).map(String::from);
+                    Some(Parts {
+                        jwt: format!("{}.{}.{}", g("protected")?, g("payload")?, g("signature")?),
+                        disclosures: v.get("disclosures").and_then(Value::as_array).map(|a| a.iter().filter_map(|d| d.as_str().map(String::from)).collect()).unwrap_or_default(),
+                        kb: g("kb_jwt"),
+                    })
+                })
+            } else {
+                None
+            };
+            if let Some(p) = lenient {
+                let pair = kb.as_ref().map(|k| (k.aud.as_str(), k.nonce.as_str()));
+                let a = api::verify(&pres, &Resolver::Fixed(cfg.alg, 0), pair, fmt0).out;
+                let b = api::verify(&p.to_compact(), &Resolver::Fixed(cfg.alg, 0), pair, Fmt::Compact).out;
+                l.evals += 1;
+                let same = match (&a, &b) {
+                    (Outcome::Ok(x), Outcome::Ok(y)) => x == y,
+                    (Outcome::Err(_), Outcome::Err(_)) => true,
+                    _ => false,
+                };
+                if !same {
+                    l.violate(Violation { subcheck: "formats-diverge".into(), class: "library output as produced vs its compact re-expression".into(), observed: format!("JSON={} Compact={}", a.class(), b.class()), case, detail: json!({"credential": desc, "json_as_produced": pres}) });
+                }
+            }
+            return;
+        }
     };
     let (aud, nonce) = kb.as_ref().map(|k| (k.aud.clone(), k.nonce.clone())).unwrap_or(("aud-x".into(), "nonce-x".into()));
     let resolver = Resolver::Fixed(cfg.alg, 0);
@@ -257,6 +289,15 @@ fn one_case(ctx: &Ctx, case: u64, l: &mut Local) {
             }
             "kb-on-unbound" => t.kb = Some(api::sign_kb(halg, 0, &kb_payload(&t), Some("kb+jwt"))),
             "kb-garbage" => t.kb = Some((*r.pick(&["a.b.c", "null", "e30.e30.AAAA", "x"])).to_string()),
+            "kb-is-a-disclosure" => {
+                // the KB position holds a genuine disclosure that is not among the presented ones
+                if let Some(x) = issued.parts.disclosures.iter().find(|d| !t.disclosures.contains(d)) {
+                    t.kb = Some(x.clone());
+                } else if let Some(x) = t.disclosures.pop() {
+                    t.kb = Some(x);
+                }
+            }
+            "kb-is-a-forged-disclosure" => t.kb = Some(b64e(json!(["s", "iss", "EVIL"]).to_string().as_bytes())),
             "resigned-no-exp" | "resigned-expired" | "resigned-nbf-future" | "resigned-exp-non-numeric" => {
                 // validly re-signed payload with a temporal fault (signing oracle); KB-JWT re-made
                 if let Ok(mut pl) = t.payload() {
